@@ -4,7 +4,7 @@ PROPS[pid]["rules"] = [(rule id, floor of decided instances, selector over insta
 Floors are the numbers counted on the tree the rules were written against: a rule that suddenly
 matches fewer sites is a broken check (exit 2), never a silent pass.
 """
-from . import lt, td, pm, hs, ws, tf, ec, se, bb, lc, cm, vt, bt, sr, le, wf, dp, dt, he, gl, ts, ee, sl, wp, fs, ic, nb, im, rn, mp, sp, ms, cp, sh, st, rh, vo, wi, law, cn, pr, dtr, sa, vx
+from . import nc, lt, td, pm, hs, ws, tf, ec, se, bb, lc, cm, vt, bt, sr, le, wf, dp, dt, he, gl, ts, ee, sl, wp, fs, ic, nb, im, rn, mp, sp, ms, cp, sh, st, rh, vo, wi, law, cn, pr, dtr, sa, vx
 
 
 def has(*subs):
@@ -71,6 +71,7 @@ RULES = {
     "BT": {"run": bt.run},
     "SR": {"run": sr.run},
     "LE": {"run": le.run},
+    "NC": {"run": nc.run},
 }
 
 BDD_T = ("BddNode", "BddPtr")
@@ -165,17 +166,18 @@ PROPS = {
     "C11": {
         "level": "other",
         "rules": [("CP", 4, has("cached_semantic_hash:sign", "check_cached_hash_and_neg")), ("IM", 3, has("IM5:semantic_hash")),
-                  ("NB", 33, None), ("IC", 4, has("create_semantic_hash_map")), ("GL", 5, has("GL7")),
+                  ("NB", 33, None), ("IC", 4, has("create_semantic_hash_map")), ("GL", 6, has("GL7", "GL3:return-found")),
                   ("CP", 3, has("decision_nnf::builder::DecisionNNFBuilder::cond_helper")), ("SE", 11, None)],
         "explanation": "Hash values follow the pointer's sign (complemented -> negate(hash of the regular pointer)) and a node "
                        "found under the negated hash is returned complemented, in both semantic builders (CP-hash); the per-node "
                        "hash cache has one writer (IM5); field arithmetic stays in range for every exported prime (NB); hash "
                        "maps are sized by variable counts (IC). Not decided: that the hash is determined by the function "
-                       "(an algebraic identity over a random point), collision freedom, correctness of the semantic builders. Added: a hash hit is returned exactly as found and the semantic SDD builder decides equality by hashes on every path (SE1, SE2).",
+                       "(an algebraic identity over a random point), collision freedom, correctness of the semantic builders. Added: a hash hit is returned exactly as found and the semantic SDD builder decides equality by hashes on every path (SE1, SE2). Added after the fourth seeding round: the unique table compares the *whole* stored hash with the requested one before it returns a stored node (GL3 return-found); in by-hash mode that comparison is the only identity test the semantic builders have.",
     },
     "C02": {
         "level": "other",
-        "rules": [("GL", 2, has("GL3")), ("TS", 3, has("TS-OCC")), ("HE", 4, has(*BDD_T)),
+        "rules": [("GL", 4, has("GL3", "GL2:slot-write", "GL2:grow")), ("TS", 3, has("TS-OCC")), ("HE", 4, has(*BDD_T)),
+                  ("SH", 1, has("ite_helper:SH1")),
                   ("RN", 4, has("RN1", "RN2")), ("IM", 37, has("IM3", "IM4", "IM2")), ("RH", 14, None),
                   ("VO", 14, vo_sel("::bdd::", "var_order")), ("ST", 2, None)],
         "explanation": "Structural necessary conditions of ROBDD canonicity: the unique table returns a stored node only "
@@ -185,7 +187,7 @@ PROPS = {
                        "logical operations reduce (low == high returns the child) and normalise the high edge before "
                        "interning (RN1, RN2); nodes enter only through the table and pointer variants are built only from "
                        "table results or existing nodes (IM3, IM4). Not decided: the iff between pointer and function "
-                       "equality in general, order-respect on every path, robin-hood probe-length arithmetic. Added: the standard-triple normalisation denotes ite(f,g,h) on all 8-valuation paths (ST) - a wrong triple makes results of one function differ; BddNode's Ord pairs the structural fields (HE ord-fields).",
+                       "equality in general, order-respect on every path, robin-hood probe-length arithmetic. Added: the standard-triple normalisation denotes ite(f,g,h) on all 8-valuation paths (ST) - a wrong triple makes results of one function differ; BddNode's Ord pairs the structural fields (HE ord-fields). Added after the fourth seeding round: ite_helper splits on first_essential(f,g,h) — the earliest top variable of all three operands — and builds the node from the cofactors on that variable (SH1); the LRU apply cache writes key, value and hash of a slot together and re-inserts whole elements on growth (GL2), so an eviction cannot leave a key paired with another key's value.",
     },
     "C04": {
         "level": "other",
@@ -203,13 +205,13 @@ PROPS = {
                   ("FS", 10, has("compile_cnf", "or_lst", "and_lst", "from_dtree")), ("DT", 1, has("BottomUpBuilder::or:")),
                   ("SH", 5, has(":CC:")), ("ST", 2, None), ("GL", 1, has("GL6")),
                   ("CP", 3, has("cond_with_alloc", "condition_essential")), ("LC", 1, has("compile_cnf_with_assignments")),
-                  ("LE", 7, None)],
+                  ("LE", 7, None), ("NC", 1, has("DTree::from_cnf"))],
         "explanation": "Every variant of LogicalExpr and BottomUpPlan is compiled by its namesake operation with operands in "
                        "order, a dtree becomes a conjunction of clause disjunctions of the literal's own label and polarity "
                        "with the empty clause false (DP; none of these arms is executed by the test-suite); empty-formula / "
                        "empty-clause / satisfied-literal shortcuts and accumulator seeds of the CNF compilers (FS); the "
                        "default `or` is De Morgan (DT). Not decided: that clause sorting and merge orders preserve the "
-                       "function (and is AC, which is C01's business). Added: compile_cnf_with_assignments treats a literal by its status under the assignment only (satisfied: clause becomes true; falsified: dropped; unassigned: disjoined), checked over all (assignment, polarity) cases (LC).",
+                       "function (and is AC, which is C01's business). Added: compile_cnf_with_assignments treats a literal by its status under the assignment only (satisfied: clause becomes true; falsified: dropped; unassigned: disjoined), checked over all (assignment, polarity) cases (LC). Added after the fourth seeding round: DTree::from_cnf turns every clause into a leaf (NC: every iteration of a loop over the items pushes onto its accumulator; an iterator chain from the items to collect() has no filter/skip/take/dedup) - a dropped clause gives the result extra models while everything downstream stays consistent.",
     },
     "C09": {
         "level": "other",
@@ -255,10 +257,11 @@ PROPS = {
     "C14": {
         "level": "other",
         "rules": [("IC", 13, hasnot("repr::cnf::Cnf::from_dimacs")), ("VO", 15, vo_sel("var_order", "vtree", "dtree", "force_order")), ("DTR", 5, None), ("VX", 11, None),
-                  ("LT", 2, has("VarOrder", "VTreeManager")), ("VT", 4, None), ("BT", 9, None)],
+                  ("LT", 2, has("VarOrder", "VTreeManager")), ("VT", 4, None), ("BT", 9, None),
+                  ("NC", 1, has("DTree::from_cnf"))],
         "explanation": "Dimension analysis (Index / Count / OneBased): every function called num_vars returns a count, every "
                        "num_vars field is initialised with a count, label-indexed table sizes are counts (IC). Not decided: "
-                       "permutation-ness of heuristic orders, dtree cutsets, LCA / in-order index arithmetic. Added: FORCE re-positions every variable in every round (no element-dropping adaptor in the pipeline: VO force_order); var_to_pos and vtree_index keep their label indexing (LT).",
+                       "permutation-ness of heuristic orders, dtree cutsets, LCA / in-order index arithmetic. Added: FORCE re-positions every variable in every round (no element-dropping adaptor in the pipeline: VO force_order); var_to_pos and vtree_index keep their label indexing (LT). Added after the fourth seeding round: DTree::from_cnf turns every clause into a leaf (NC: every iteration of a loop over the items pushes onto its accumulator; an iterator chain from the items to collect() has no filter/skip/take/dedup) - a dropped clause gives the result extra models while everything downstream stays consistent.",
     },
     "C15": {
         "level": "other",
@@ -284,11 +287,12 @@ PROPS = {
     "C17": {
         "level": "other",
         "rules": [("DP", 12, has("from_sexpr", "VTreeSerializer", "from_dimacs", "to_dimacs")), ("IC", 1, has("from_dimacs")),
-                  ("CP", 6, has("serialize::")), ("CN", 1, has("repr::cnf::")), ("SR", 3, None), ("LE", 7, None)],
+                  ("CP", 6, has("serialize::")), ("CN", 1, has("repr::cnf::")), ("SR", 3, None), ("LE", 7, None),
+                  ("NC", 4, has("from_dimacs"))],
         "explanation": "The s-expression translation and the vtree mirror map each variant to its namesake with children in "
                        "order (DP); DIMACS signs map Neg to false and Pos to true in both parsers (DP); the CNF parser "
                        "subtracts one from the 1-based DIMACS variable (IC OneBased -> Index). Not decided: model-level "
-                       "equality of parsed formulas; JSON well-formedness (serde). Added: in the s-expression parser every special case of a negated operand still denotes the negation (Not(Not e) may only shortcut to e).",
+                       "equality of parsed formulas; JSON well-formedness (serde). Added: in the s-expression parser every special case of a negated operand still denotes the negation (Not(Not e) may only shortcut to e). Added after the fourth seeding round: the DIMACS readers keep every clause and every literal of the text (NC: every iteration of a loop over the items pushes onto its accumulator; an iterator chain from the items to collect() has no filter/skip/take/dedup) - a dropped clause gives the result extra models while everything downstream stays consistent.",
     },
     "C18": {
         "level": "proof",
@@ -304,10 +308,11 @@ PROPS = {
     },
     "C19": {
         "level": "other",
-        "rules": [("MP", 8, None), ("SL", 7, None), ("CP", 3, has("ser_bdd")), ("VO", 2, has("var_at_level")),
-                  ("CN", 1, has("dedup")), ("DP", 9, has("from_dimacs:sign", "from_sexpr")), ("SR", 1, has("ser_bdd"))],
+        "rules": [("MP", 8, None), ("SL", 7, None), ("CP", 3, has("ser_bdd")), ("VO", 3, has("var_at_level", "VarOrder::new:inverse-by-construction")),
+                  ("CN", 1, has("dedup")), ("DP", 9, has("from_dimacs:sign", "from_sexpr")), ("SR", 1, has("ser_bdd")),
+                  ("NC", 2, has("Cnf::from_dimacs"))],
         "explanation": "In each tool the counted / serialised diagram is the compiled one, compiled on a builder whose order "
                        "comes from the same formula; counts are taken on smooth(_, num_vars); weights are keyed by the "
-                       "expression's own variable mapping (MP, SL2). Not decided: the printed numbers.",
+                       "expression's own variable mapping (MP, SL2). Not decided: the printed numbers. Added after the fourth seeding round: VarOrder::new fills var_to_pos as the inverse of pos_to_var (VO inverse-by-construction); apply reads one table and smoothing the other. Added after the fourth seeding round: the DIMACS reader keeps every clause and every literal of the text (NC: every iteration of a loop over the items pushes onto its accumulator; an iterator chain from the items to collect() has no filter/skip/take/dedup) - a dropped clause gives the result extra models while everything downstream stays consistent.",
     },
 }
